@@ -40,9 +40,9 @@ class Diagonalization(Function):
         if ctx.batch_shape is None:
             q_mat = q_mat.unsqueeze(-3)
             t_mat = t_mat.unsqueeze(-3)
-        if t_mat.ndimension() == 3:  # If we only used one probe vector
-            q_mat = q_mat.unsqueeze(0)
-            t_mat = t_mat.unsqueeze(0)
+        # a single (random) probe vector is used: lanczos_tridiag has dropped the probe dimension
+        q_mat = q_mat.unsqueeze(0)
+        t_mat = t_mat.unsqueeze(0)
 
         mins = torch.diagonal(t_mat, dim1=-1, dim2=-2).min(dim=-1, keepdim=True)[0]
         jitter_val = settings.tridiagonal_jitter.value()
